@@ -303,46 +303,39 @@ pub fn run(s: &CsrShape) {
     core::mem::forget(p);
 }
 
-/// C07 refusal rule: parameters a CSR cannot express give `Err(UnsupportedInCsr)`, and only they.
-/// All five unsupported fields are chosen symbolically in one query (the refusal happens
-/// before any byte is written, so no buffer length depends on them).
-pub fn refuse() {
+/// C07 refusal rule: parameters a CSR cannot express give `Err(UnsupportedInCsr)` before anything
+/// is signed. `mask` (bit 0 serial, 1 is_ca, 2 name constraints, 3 CRL DPs, 4 AKI flag) and the
+/// CA variant are constants of the query - the driver enumerates them - because a symbolic choice
+/// would make CBMC also explore the generation path with parameters of unknown shape.
+pub fn refuse(mask: u8, ca_kind: u8) {
     let mut p = empty_params();
-    let f_serial: bool = kani::any();
-    let f_ca: bool = kani::any();
-    let f_nc: bool = kani::any();
-    let f_dp: bool = kani::any();
-    let f_aki: bool = kani::any();
-    if f_serial {
+    if mask & 1 != 0 {
         p.serial_number = Some(rcgen::SerialNumber::from(sym_bytes(2)));
     }
-    if f_ca {
-        let k: u8 = kani::any();
-        kani::assume(k < 3);
-        p.is_ca = match k {
+    if mask & 2 != 0 {
+        p.is_ca = match ca_kind {
             0 => rcgen::IsCa::ExplicitNoCa,
             1 => rcgen::IsCa::Ca(rcgen::BasicConstraints::Unconstrained),
             _ => rcgen::IsCa::Ca(rcgen::BasicConstraints::Constrained(kani::any())),
         };
     }
-    if f_nc {
+    if mask & 4 != 0 {
         // also the empty Some(..): it is a field a CSR cannot carry
         p.name_constraints = Some(rcgen::NameConstraints { permitted_subtrees: Vec::new(), excluded_subtrees: Vec::new() });
     }
-    if f_dp {
+    if mask & 8 != 0 {
         p.crl_distribution_points = vec![rcgen::CrlDistributionPoint { uris: vec![ascii_string(1)] }];
     }
-    if f_aki {
+    if mask & 16 != 0 {
         p.use_authority_key_identifier_extension = true;
     }
-    let unsupported = f_serial || f_ca || f_nc || f_dp || f_aki;
     let (key, _pk, _sig) = remote_key::<2, 2>(1, 5, false);
     let r = p.serialize_request(&key);
-    if unsupported {
+    if mask != 0 {
         assert!(matches!(r, Err(rcgen::Error::UnsupportedInCsr)), "C07:unsupported-field-not-refused");
         assert!(sign_log().calls == 0, "C07:signed-before-refusing");
     } else {
-        assert!(r.is_ok(), "C07:supported-parameters-refused");
+        assert!(r.is_ok(), "GEN:unexpected-error");
     }
-    kani::cover!(unsupported, "REACH");
+    kani::cover!(true, "REACH");
 }
